@@ -67,7 +67,10 @@ def f19(spec, kind, message):
     if not shp.is_simple:
         return True
     lines = [g["coordinates"]] if g["type"] == "LineString" else g["coordinates"]
-    return any(a == b for l in lines for a, b in zip(l, l[1:]))
+    if any(a == b for l in lines for a, b in zip(l, l[1:])):
+        return True
+    # a vertex where the line doubles back on itself (angle below ~1 degree in the space the code buffers in)
+    return any(has_mitre_limited_vertex(g["type"], g["coordinates"], tb, fb, limit=100.0) for tb, fb in (spec["b1"], spec["b2"]))
 
 
 def _chains(kind, c):
@@ -113,7 +116,16 @@ def f18(spec, kind, message):
     if kind not in ("monotone", "bounds_growth"):
         return False
     g = spec["g"]
-    return any(has_mitre_limited_vertex(g["type"], g["coordinates"], tb, fb) for tb, fb in (spec["b1"], spec["b2"]))
+    if any(has_mitre_limited_vertex(g["type"], g["coordinates"], tb, fb) for tb, fb in (spec["b1"], spec["b2"])):
+        return True
+    if kind == "monotone":
+        # a mitre corner protrudes along the bisector of the angle *in the scaled space*; when the two buffers do not grow
+        # proportionally that angle changes and the protrusion along the other axis can shrink
+        (t1, f1), (t2, f2) = spec["b1"], spec["b2"]
+        proportional = t1 > 0 and f1 > 0 and abs(t2 / t1 - f2 / f1) <= 1e-9 * (t2 / t1)
+        has_joins = any(len(pts) >= 3 for pts, _ in _chains(g["type"], g["coordinates"]))
+        return has_joins and not proportional
+    return False
 
 
 KNOWN = {"F16-scaled-coordinates-too-large": f16, "F18-mitre-bevel": f18, "F19-non-simple-line": f19}
@@ -125,9 +137,13 @@ def case(draw):
     def buf(pal, hi):
         return draw(st.one_of(st.sampled_from(pal), st.sampled_from(pal), st.floats(0.0, hi, allow_nan=False, allow_subnormal=False)))
     tb1, fb1 = buf(TB, 50.0), buf(FB, 20000.0)
-    tb2 = tb1 + draw(st.sampled_from([0.0, 1e-3, 0.5, 10.0]))
-    fb2 = fb1 + draw(st.sampled_from([0.0, 1.0, 250.0, 1e6]))
-    return {"g": g, "b1": [tb1, fb1], "b2": [tb2, fb2]}
+    if draw(st.booleans()):
+        k = draw(st.sampled_from([1.0, 1.5, 2.0, 10.0]))  # proportional growth: the superset law is asserted for every type
+        tb2, fb2 = tb1 * k, fb1 * k
+    else:
+        tb2 = tb1 + draw(st.sampled_from([0.0, 1e-3, 0.5, 10.0]))
+        fb2 = fb1 + draw(st.sampled_from([0.0, 1.0, 250.0, 1e6]))
+    return {"g": g, "b1": [tb1, fb1], "b2": [tb2, fb2], "kwargs_first": draw(st.sampled_from([None, None, None, None, "single_sided", "quad_segs", "mitre_limit"]))}
 
 
 def _valid_result(res):
@@ -149,7 +165,18 @@ def check(spec, ctx):
     complex_ = kind.startswith("Multi") or (kind == "Polygon" and len(coords) > 1)
     nontrivial = (tb > 0 or fb > 0) and (near_edge or complex_)
     labels = [kind, "tb0" if tb == 0 else "tb+", "fb0" if fb == 0 else "fb+", "edge" if near_edge else "interior"]
+    if kind in ("Polygon", "MultiPolygon") and not to_shp(kind, coords).is_valid:
+        raise ValueError("malformed spec: polygon inputs must be shapely-valid (stated assumption)")
     results = []
+    kwf = spec.get("kwargs_first")
+    if kwf and scale_ratio(spec) < 1e6:
+        # a caller passing shapely options once must not change what later default calls return
+        extra = {"single_sided": {"single_sided": True}, "quad_segs": {"quad_segs": 1}, "mitre_limit": {"mitre_limit": 1.0}}[kwf]
+        try:
+            geometry.buffer_geometry(g, time_buffer=max(tb, 0.5), freq_buffer=max(fb, 1.0), **extra)
+        except Exception:
+            pass
+        labels = labels + [f"after_kwargs={kwf}"]
     if kind not in ("TimeStamp", "TimeInterval", "BoundingBox") and not scale_ratio(spec) < 1e290:
         # scaled coordinates overflow to inf and GEOS segfaults the interpreter: counted under F16, never executed
         ctx.case(spec, nontrivial=False, labels=labels + ["not_executed_overflow"])
@@ -168,6 +195,8 @@ def check(spec, ctx):
     ctx.case(spec, nontrivial=nontrivial, labels=labels, out={"type": results[0].type})
 
     shp_o = to_shp(kind, coords)
+    if kind in ("Polygon", "MultiPolygon") and not shp_o.is_valid:
+        raise ValueError("malformed spec: polygon inputs must be shapely-valid (stated assumption)")
     prev = None
     for (b_t, b_f), res in zip((spec["b1"], spec["b2"]), results):
         if not _valid_result(res):
